@@ -196,6 +196,34 @@ class Check:
             shutil.rmtree(os.path.join(wd, "md"), ignore_errors=True)
         return r
 
+    # ---------------------------------------------------------------- Apalache (symbolic; design-level only)
+    def apalache(self, main, args, files=None, timeout=1800, name=None, edit=None):
+        """Run `apalache-mc check <args> <main>` in a private directory holding spec/*.tla and spec/apalache/*.tla.
+        `edit(dir)` may alter the copies first (canaries).  Returns "ok" | "violation"; anything else is a framework error."""
+        wd = tempfile.mkdtemp(prefix="apa-", dir=self.scratch)
+        for d in (SPEC, os.path.join(SPEC, "apalache")):
+            for fn in os.listdir(d):
+                if fn.endswith(".tla"):
+                    shutil.copy(os.path.join(d, fn), wd)
+        for fn, content in (files or {}).items():
+            with open(os.path.join(wd, fn), "w") as f:
+                f.write(content)
+        if edit:
+            edit(wd)
+        env = self._jenv(wd)
+        env["JVM_ARGS"] = (env.get("JVM_ARGS", "") + " -Djava.io.tmpdir=%s" % os.path.join(wd, "jtmp")).strip()
+        t = time.time()
+        p = subprocess.run(["timeout", str(timeout), "apalache-mc", "check", "--out-dir=" + os.path.join(wd, "out")] + list(args) + [main],
+                           cwd=wd, env=env, capture_output=True, text=True)
+        out = p.stdout + p.stderr
+        self.cov["tlc_runs"].append({"name": name or ("apalache:" + main), "engine": "apalache", "wall_s": round(time.time() - t, 2), "rc": p.returncode})
+        shutil.rmtree(os.path.join(wd, "out"), ignore_errors=True)
+        if p.returncode == 0 and "The outcome is: NoError" in out:
+            return "ok"
+        if p.returncode == 12 and "The outcome is: Error" in out:
+            return "violation"
+        raise FrameworkError("apalache failed on %s %s (rc=%d):\n%s" % (main, " ".join(args), p.returncode, "\n".join(out.splitlines()[-25:])))
+
     # ---------------------------------------------------------------- bulk (streaming) enumeration
     def tlc_to_file(self, module, cfg, files=None, workers=None, timeout=3000, name=None, heap="8g"):
         """Like tlc(), but TLC's output goes to a file (bulk emission of cases); returns (TLCResult of head+tail, path)."""
@@ -567,6 +595,11 @@ def main(pid, level, fn):
         rc = c.finish()
         sys.exit(rc)
     except FrameworkError as e:
+        if c is not None and c.violations and str(e).startswith("canary"):
+            # the self-check of the machinery (a deliberately corrupted trace / expectation must be rejected) presumes a run in
+            # which the code conforms; after confirmed violations it proves nothing either way and must not mask them
+            log("note: canary not evaluated after confirmed violations (%s)" % e)
+            sys.exit(c.finish())
         log("FRAMEWORK-ERROR %s: %s" % (pid, e))
         if c is not None and not c.keep:
             shutil.rmtree(c.scratch, ignore_errors=True)
